@@ -109,7 +109,7 @@ Proof. cbv zeta. split; [repeat constructor|]. split; [vm_compute; reflexivity|]
    closed again; when it is open (any mode) and the copy issues only reader routines on it, file and handle are unchanged. *)
 Theorem C10_helpers_readonly :
   (forall f lk cf nc,
-     let w0 := {| handle_of := Closed; defmode := R; file := f; locked := lk; close_fault := cf; repack := false; ncat := nc |} in
+     let w0 := {| handle_of := Closed; defmode := R; file := f; locked := lk; close_fault := cf; repack := false; ncat := nc; in_mem := false |} in
      handle_of (fst (open_ None w0)) = Open R /\ path2workspace_run f lk cf nc = (w0, None))
   /\ (forall body w, handle_of w = Closed -> forallb (call_in_table T_iocalls) body = true ->
         handle_of (fst (open_ (Some R) w)) = Open R
